@@ -15,7 +15,7 @@ RULE = ("generated nests of modules / submodules / main programs / external and 
         "model against the real SymbolTables/SymbolTable classes on random operation scripts. non-trivial = depth >= 2 and >= 1 shadowed reference")
 ASSUMPTIONS = ["declared names are lower-cased by fparser; USE'd modules are recorded but never resolve a name (wildcard imports only "
                "relax the arity check)"]
-TIE_MODULES = ["FparserModel.SymTab", "FparserModel.Generated.Intrinsics", "FparserModel.Block"]
+TIE_MODULES = ["FparserModel.SymTab", "FparserModel.Generated.Intrinsics", "FparserModel.Block", "FparserModel.SymGlue", "FparserModel.Generated.SymGlueSites", "FparserModel.Props.SymGlue"]
 
 # generic names and specific names of the same intrinsics (a declaration of `abs` must not
 # affect `iabs`, nor the other way round)
@@ -337,5 +337,6 @@ def cases(tier, seed):
 
 
 def run(tier, rep, st):
+    util.sub_cosim(rep, tier, "cosim_symglue", "Fp.SymGlue", 150, 2000)
     results = engine.run_cases(__name__, cases(tier, rep.seed), rep)
     rep.evaluations = sum(r.get("evals", 1) for r in results)
